@@ -8,10 +8,12 @@ package main
 
 import (
 	"bufio"
+	"bytes"
 	"context"
 	"encoding/json"
 	"errors"
 	"fmt"
+	"io"
 	"net"
 	"os"
 	"os/exec"
@@ -44,6 +46,29 @@ type c18Scn struct {
 	Restart   bool        `json:"restart,omitempty"`    // startstop: the same Server is served a second time after its Close (socket listeners start again)
 	Odd       bool        `json:"odd,omitempty"`        // besides the clients: on every listener a peer whose only envelope is a session that cannot start one, gone at once
 	NoBacklog bool        `json:"no_backlog,omitempty"` // the queue between acceptors and consumer has no buffer (Backlog 0): a pure hand-off
+	// HoldEst: the server is held right after the bytes of its established envelope left through the TCP connection
+	// (a TraceWriter that takes its time), until every client of the scenario has gone
+	HoldEst bool `json:"hold_established,omitempty"`
+}
+
+// holdTrace is a TraceWriter whose send side blocks on an established envelope until released.
+type holdTrace struct {
+	send, recv io.Writer
+}
+
+func (h *holdTrace) SendWriter() *io.Writer    { return &h.send }
+func (h *holdTrace) ReceiveWriter() *io.Writer { return &h.recv }
+
+type holdWriter struct{ release chan struct{} }
+
+func (w *holdWriter) Write(p []byte) (int, error) {
+	if bytes.Contains(p, []byte(`"established"`)) {
+		select {
+		case <-w.release:
+		case <-time.After(20 * time.Second):
+		}
+	}
+	return len(p), nil
 }
 
 const (
@@ -87,6 +112,9 @@ func limeGoroutines() int {
 }
 
 type c18Server struct {
+	holdRelease chan struct{}
+	// raw TCP connections to the WebSocket listeners that have not sent their upgrade request yet (see addPending)
+	pending  []net.Conn
 	srv      *lime.Server
 	addrs    []net.Addr
 	kinds    []string
@@ -131,6 +159,13 @@ func newC18Server(scn *c18Scn) (*c18Server, error) {
 		cfg.EncryptOpts = []lime.SessionEncryption{lime.SessionEncryptionNone, lime.SessionEncryptionTLS}
 		sc, _ := testTLS()
 		tcpCfg = &lime.TCPConfig{TLSConfig: sc}
+	}
+	if scn.HoldEst {
+		if tcpCfg == nil {
+			tcpCfg = &lime.TCPConfig{}
+		}
+		s.holdRelease = make(chan struct{})
+		tcpCfg.TraceWriter = &holdTrace{send: &holdWriter{release: s.holdRelease}, recv: io.Discard}
 	}
 	cfg.ChannelBufferSize = scn.Buf
 	cfg.Backlog = 4
@@ -233,8 +268,33 @@ func (s *c18Server) result(o *c18Obs, d time.Duration) {
 	}
 }
 
+// addPending connects to every WebSocket listener without saying anything yet: a connection that is still in the
+// listener's hands when the server is closed.
+func (s *c18Server) addPending() {
+	for i, a := range s.addrs {
+		if s.kinds[i] != "ws" {
+			continue
+		}
+		if c, err := net.DialTimeout("tcp", a.String(), time.Second); err == nil {
+			s.pending = append(s.pending, c)
+		}
+	}
+}
+
 func (s *c18Server) listenersLeft() int {
 	left := 0
+	// a listener that was stopped does not take up a connection it had accepted before
+	for _, c := range s.pending {
+		_ = c.SetDeadline(time.Now().Add(1500 * time.Millisecond))
+		_, _ = c.Write([]byte("GET / HTTP/1.1\r\nHost: localhost\r\nUpgrade: websocket\r\nConnection: Upgrade\r\nSec-WebSocket-Key: dGhlIHNhbXBsZSBub25jZQ==\r\nSec-WebSocket-Version: 13\r\nSec-WebSocket-Protocol: lime\r\n\r\n"))
+		buf := make([]byte, 64)
+		n, _ := c.Read(buf)
+		if n > 0 && strings.Contains(string(buf[:n]), " 101 ") {
+			left++
+		}
+		_ = c.Close()
+	}
+	s.pending = nil
 	for i, a := range s.addrs {
 		switch s.kinds[i] {
 		case "inproc":
@@ -588,6 +648,12 @@ func c18Sessions(scn *c18Scn) c18Obs {
 			}(i, c)
 		}
 	}
+	if scn.HoldEst {
+		// every client has gone while the server was still inside the send of its established envelope
+		time.Sleep(40 * time.Millisecond)
+		close(s.holdRelease)
+		time.Sleep(20 * time.Millisecond)
+	}
 	if scn.Odd {
 		// no session may come of these, so no callback either: whatever fires for them counts as stray
 		for _, k := range s.kinds {
@@ -603,6 +669,7 @@ func c18Sessions(scn *c18Scn) c18Obs {
 	if scn.DelayUs > 0 {
 		time.Sleep(time.Duration(scn.DelayUs) * time.Microsecond)
 	}
+	s.addPending()
 	s.closeServing()
 	s.result(&o, 15*time.Second*slack)
 	cwg.Wait()
@@ -894,6 +961,11 @@ func runC18(env *Env) error {
 		Clients: []c18Client{{Kind: "tcp", Phase: "stalled"}, {Kind: "tcp", Phase: "idle"}}},
 		c18Scn{Kind: "sessions", Listeners: all, Buf: 4, TLS: true,
 			Clients: []c18Client{{Kind: "tcp", Phase: "stalled"}, {Kind: "tcp", Phase: "stalled"}, {Kind: "inproc", Phase: "traffic", Msgs: 2}}})
+	// clients that are gone before the server has come back from sending them the established envelope
+	scns = append(scns, c18Scn{Kind: "sessions", Listeners: all, Buf: 4, HoldEst: true,
+		Clients: []c18Client{{Kind: "tcp", Phase: "gone"}, {Kind: "tcp", Phase: "gone"}}},
+		c18Scn{Kind: "sessions", Listeners: []string{"tcp"}, Buf: 1, HoldEst: true, SlowEst: true,
+			Clients: []c18Client{{Kind: "tcp", Phase: "gone"}}})
 	nmix := env.Pick(14, 80)
 	for m := 0; m < nmix; m++ {
 		n := 2 + env.Rng.Intn(env.Pick(4, 7))
@@ -932,6 +1004,9 @@ func runC18(env *Env) error {
 		}
 		if c.Scn.Odd {
 			env.Count("peers-that-cannot-start-a-session")
+		}
+		if c.Scn.HoldEst {
+			env.Count("client-gone-while-the-server-is-still-sending-established")
 		}
 		for _, cl := range c.Scn.Clients {
 			env.Count("phase=" + cl.Phase)
